@@ -155,3 +155,16 @@ Theorem C08_tags_gated_history : forall cfg s0 h tags,
   has_tags tags /\ enabled_by (history_ops h) s_message_tags.
 Proof. exact C08_tags_gated_history_proof. Qed.
 Print Assumptions C08_tags_gated_history.
+
+(* The known finding (KNOWN_FINDINGS.txt class ack-removal-ignored), stated so that it is
+   true of the current code and of the repaired code: after CAP ACK :-message-tags the model
+   of the CURRENT handleCAP (ack_removal_aware = false) still reports message-tags, reports
+   "-message-tags" as a capability and still writes tags; the repaired one does none of it. *)
+Theorem C08_ack_removal_finding :
+  let en := st_enabled (cap_after ex_cfg (cap_init sts_init) ex_removal_h) in
+  has_capability true en (bs "message-tags") = negb ack_removal_aware /\
+  has_capability true en (bs "-message-tags") = negb ack_removal_aware /\
+  has_capability true en (bs "away-notify") = true /\
+  tag_section_present (send_loop_tags en (Some [(bs "k", bs "v")])) = negb ack_removal_aware.
+Proof. exact C08_ack_removal_finding_proof. Qed.
+Print Assumptions C08_ack_removal_finding.
